@@ -1,7 +1,7 @@
 (* Props/C01.v — Deterministic replay: same chain, same ledger.
    Only statements, each closed by [exact]; proofs live in Lemmas/. *)
 From Model Require Import Examples.
-From Lemmas Require Import PayoutLemmas SitesLemmas.
+From Lemmas Require Import PayoutLemmas SitesC01.
 From Model Require Import SitesSpec.
 From Gen Require Import Consts Sites.
 Open Scope Z_scope.
